@@ -1348,7 +1348,7 @@ impl ASN1Value {
                         highest_distinguished_bit,
                         o,
                         distinguished,
-                    ));
+                    )?);
                     Ok(())
                 } else {
                     Err(GrammarError {
@@ -1372,7 +1372,7 @@ impl ASN1Value {
                         highest_distinguished_bit,
                         o,
                         distinguished,
-                    ));
+                    )?);
                     Ok(())
                 } else {
                     Err(GrammarError {
@@ -1801,12 +1801,22 @@ impl ASN1Value {
     }
 }
 
+/// The highest bit number a named bit may have when a value is written as a list of names:
+/// the value is materialised with one `bool` per bit up to the highest named bit of the type.
+const MAX_NAMED_BIT: i128 = u16::MAX as i128;
+
 fn bit_string_value_from_named_bits(
     highest_distinguished_bit: i128,
     named_bits: &[String],
     distinguished: &[DistinguishedValue],
-) -> Vec<bool> {
-    (0..=highest_distinguished_bit)
+) -> Result<Vec<bool>, GrammarError> {
+    if !(0..=MAX_NAMED_BIT).contains(&highest_distinguished_bit) {
+        return Err(grammar_error!(
+            LinkerError,
+            "Named bit number {highest_distinguished_bit} is outside the supported range 0..={MAX_NAMED_BIT} for BIT STRING values"
+        ));
+    }
+    Ok((0..=highest_distinguished_bit)
         .map(|i| {
             named_bits.iter().any(|bit| {
                 Some(bit)
@@ -1815,7 +1825,7 @@ fn bit_string_value_from_named_bits(
                         .find_map(|d| (d.value == i).then_some(&d.name))
             })
         })
-        .collect()
+        .collect())
 }
 
 #[cfg(test)]
